@@ -128,7 +128,7 @@ def decide(trust_all, answers):
 
 def judge(cases, obs, tier):
     oracle, model, errors = {}, {}, []
-    kterms, kidx, pterms, pidx = [], [], [], []
+    kterms, kidx, pterms, pidx, hterms, hidx = [], [], [], [], [], []
     for i, (c, o) in enumerate(zip(cases, obs)):
         if o is None or "panic" in o or "error" in o:
             oracle[i] = "implementation failed: %s" % (o,)
@@ -170,7 +170,15 @@ def judge(cases, obs, tier):
         if i in oracle:
             continue
         if c.get("recontact"):
-            continue                                   # the file after two rounds is not compared (first-round cases cover it)
+            # the file after two rounds is not compared (first-round cases cover it); the history model runs both rounds when the
+            # known-hosts verdicts of the second round are determined (nothing was recorded by an answer in the first)
+            if d != "proceed" or c["trust_all"]:
+                cs = vf.cq_list(["(%d, %s)" % (ct["key"], vf.cq_bool(status[str(ct["key"])] == "known")) for ct in c["contacts"]])
+                al = lambda xs: vf.cq_list([vf.cq_bytes(a.strip().encode()) for a in xs])
+                cd = lambda rs: vf.cq_list([str({"proceed": 0, "refused": 1, "blocked": 2}[r.split(":")[0]]) for r in rs])
+                hterms.append("(%s, [(%s, %s); (%s, %s)], [%s; %s])" % (vf.cq_bool(c["trust_all"]), al(answers), cs, al(answers2), cs, cd(o["results"]), cd(o["results2"])))
+                hidx.append(i)
+            continue
         old = scan_lines(before)
         if need and d == "proceed":
             ents = [o["entries"][k] for k in need]
@@ -208,6 +216,10 @@ def judge(cases, obs, tier):
     errors += errs
     for f in fails:
         model[pidx[f]] = "Coq model of the prompt differs from the observed decision"
+    fails, errs = vf.coq_eval_sharded("From DT Require Import Lib.Bytes Model.C17_KnownHosts.", hterms, "hist_agree", per_shard=200, case_type="hist_case")
+    errors += errs
+    for f in fails:
+        model[hidx[f]] = "Coq model of the reconnect history differs from the observed decisions"
     return {"oracle": oracle, "model": model, "errors": errors}
 
 
